@@ -180,6 +180,23 @@ def scripted(k, how, which, uid):
               [{"name": "b", "ops": head + tail}], {"closed": closed, "how": how})
 
 
+def inproc_connect_race(how, off):
+    """connect() calls to an inproc name race with the binder's close() / the context's term(): every call
+    returns (Inproc.tla ConnectReturns), and the name is free afterwards"""
+    ep = S.endpoint("inproc", "c16race")
+    socks = [{"name": "rx", "type": "PULL", "opts": []}, chk_sock(0, "inproc")] + [{"name": "tx%d" % i, "type": "PUSH", "opts": []} for i in range(3)]
+    tail = [{"op": "sleep", "ms": 300}]
+    if how == "close":
+        tail.append({"op": "bind", "sock": "chk0", "ep": ep})
+    tail.append({"op": "live_actors", "ctx": 0})
+    tasks = [{"name": "b", "ops": [{"op": "bind", "sock": "rx", "ep": ep}, {"op": "barrier", "name": "go", "parties": 4}, {"op": "sleep", "ms": 30},
+                                  shutdown_op(how, "rx")] + tail}]
+    for i in range(3):
+        tasks.append({"name": "c%d" % i, "ops": [{"op": "barrier", "name": "go", "parties": 4}, {"op": "sleep", "ms": max(0, 30 + off + i - 1)},
+                                                 {"op": "connect", "sock": "tx%d" % i, "ep": ep}, {"op": "sleep", "ms": 100}, {"op": "close", "sock": "tx%d" % i}]})
+    return mk("inprocrace-%s-%d" % (how, off), socks, tasks, {"closed": ["rx", "tx0", "tx1", "tx2"], "how": how})
+
+
 def build(thorough, rng):
     scs = []
     for tr in ["tcp", "ipc", "inproc"]:
@@ -210,6 +227,9 @@ def build(thorough, rng):
             for pair in [("DEALER", "ROUTER"), ("PUB", "SUB")]:
                 for which in (["tx", "rx"] if how == "close" else ["tx"]):
                     scs.append(traffic(how, which, "tcp", 150, pair))
+    for how in ["close", "term"]:
+        for off in ([-3, -1, 0, 1, 2, 4] if thorough else [-1, 0, 1]):
+            scs.append(inproc_connect_race(how, off))
     uid = 0
     for k in range(len(SCRIPT) + 1):
         for (how, which) in ([("close", "s1"), ("close", "s2"), ("term", "s1")] if thorough else [("close", "s1" if k % 2 else "s2"), ("term", "s1")]):
@@ -318,6 +338,12 @@ def run(ctx):
         seen[sw] = res.violated
         if not res.violated:
             raise vlib.ToolError("Lifecycle.tla no longer shows the pinned defect under %s" % sw)
+    # the inproc connect protocol (registry, request over the bus, one-shot reply, binder closing at any moment)
+    ctx.model_check("MC_Inproc", "MC_Inproc_quick.cfg", workers=8, timeout=1800)
+    res = vlib.tlc("MC_Inproc", "MC_Inproc_asis.cfg", os.path.join(ctx.work, "tlc_InprocDeaf"), workers=4, timeout=900, coverage=False)
+    seen["DeafSubscriber(Inproc)"] = res.violated
+    if not res.violated:
+        raise vlib.ToolError("Inproc.tla no longer shows connect() hanging when a subscriber holds the bus slot without reading")
     ctx.selftest["model_finds_pinned_defects"] = seen
 
     # B2: WaitGroup::wait against the last done() under the controlled scheduler
